@@ -63,3 +63,26 @@ Example C08_nonvacuous :
   apply_reds true [[1;-1];[-1;1]] (all_true 2) (all_true 2)
     [(ERow 0, ERow 1); (ECol 0, ECol 1); (ERow 1, ECol 1); (ECol 1, ENone)] = Some ([false;false],[false;false]).
 Proof. repeat split; vm_compute; reflexivity. Qed.
+
+(* ---------- the C text of projectSignedHash (hashtable.h), translated on every run (tools/c2gallina.py -> LeafGen.v):
+   no signed overflow for every argument the callers can form (3*h, h+g, h-g with |h|,|g| < RANGE), the result lies in
+   the symmetric range and is the canonical representative of its residue class — equal residues get equal hash values
+   independently of the order of accumulation, which is what makes the reductions independent of the hash history ---------- *)
+From Cmr Require LeafSem LeafGen LeafProofs.
+Theorem C08_hash_projection_defined_in_range_congruent : forall v,
+  -9223372036854775808 <= v <= 9223372036854775807 - LeafProofs.HR ->
+  exists r, LeafGen.c_projectSignedHash v = Some r /\ - (LeafProofs.HR - 1) <= r <= LeafProofs.HR - 1 /\
+            (r - v) mod (2 * LeafProofs.HR - 1) = 0.
+Proof. exact LeafProofs.c_projectSignedHash_spec. Qed.
+Print Assumptions C08_hash_projection_defined_in_range_congruent.
+
+Theorem C08_hash_projection_canonical : forall v w r s, LeafProofs.psh_pre v -> LeafProofs.psh_pre w ->
+  LeafGen.c_projectSignedHash v = Some r -> LeafGen.c_projectSignedHash w = Some s ->
+  (v - w) mod (2 * LeafProofs.HR - 1) = 0 -> r = s.
+Proof. exact LeafProofs.c_projectSignedHash_canonical. Qed.
+Print Assumptions C08_hash_projection_canonical.
+
+Theorem C08_hash_arguments_in_range : forall h g, - LeafProofs.HR < h < LeafProofs.HR -> - LeafProofs.HR < g < LeafProofs.HR ->
+  LeafProofs.psh_pre (3 * h) /\ LeafProofs.psh_pre (h + g) /\ LeafProofs.psh_pre (h - g).
+Proof. exact LeafProofs.project_args_in_range. Qed.
+Print Assumptions C08_hash_arguments_in_range.
